@@ -477,6 +477,40 @@ def wire_feature(pts, nodes):
     return [f for f in order if f in fs][0]
 
 
+def grid_centre(nodes):
+    return np.array([0.5*(float(nd[0]) + float(nd[-1])) for nd in nodes])
+
+
+def first_moments(f, nodes, ctr):
+    """First moments of an edge field about `ctr`.
+
+    Returns (M, A): M[c, a] = sum_edges f_c * (position_a - ctr_a), with the
+    position of a c-edge being its midpoint (cell centre along c, node on the
+    two transverse axes); A[c, a] = sum |f_c| |position_a - ctr_a| (rounding
+    scale).  Own code: three 1-D weighted sums per component."""
+    rel = [np.asarray(nd, float) - ctr[a] for a, nd in enumerate(nodes)]
+    cen = [0.5*(r[:-1] + r[1:]) for r in rel]
+    M = np.zeros((3, 3), dtype=np.result_type(f.fx.dtype, float))
+    A = np.zeros((3, 3))
+    for c, arr in enumerate((f.fx, f.fy, f.fz)):
+        arr = np.asarray(arr)
+        for a in range(3):
+            pos = cen[a] if a == c else rel[a]
+            other = tuple(k for k in range(3) if k != a)
+            M[c, a] = (arr.sum(axis=other)*pos).sum()
+            A[c, a] = (np.abs(arr).sum(axis=other)*np.abs(pos)).sum()
+    return M, A
+
+
+def path_moments(pts, ctr):
+    """Transverse first moments of the polygonal path `pts` about `ctr`:
+    R[c, a] = sum_segments (p1 - p0)_c * (midpoint_a - ctr_a) = integral of
+    (r_a - ctr_a) dr_c along the path (exact: r_a is linear on a segment)."""
+    d = np.diff(pts, axis=0)
+    mid = 0.5*(pts[:-1] + pts[1:]) - ctr
+    return np.einsum('sc,sa->ca', d, mid)
+
+
 class Caught:
     """Run a callable, recording warnings."""
 
@@ -489,9 +523,10 @@ class Caught:
                             if 'Normalizing Source' in m]
 
 
-def vector_problem(res, grid, nodes, pts, nominal):
+def vector_problem(res, grid, nodes, pts, nominal, ptol=0.0):
     """Oracles on a source vector (frequency=None, unit strength) of the
-    wire `pts`: finite / not re-normalised / moment / support.
+    wire `pts`: finite / not re-normalised / moment / support / transverse
+    first moments.
     Returns (None, ncells) or ((kind, message), ncells)."""
     vfield = res.value
     if not np.all(np.isfinite(vfield.field)):
@@ -532,10 +567,35 @@ def vector_problem(res, grid, nodes, pts, nominal):
                     f"{np.asarray(arr)[tuple(idx)]!r} but belongs to no "
                     f"cell touched by the wire ({int(bad.sum())} such "
                     "edges)"), 0
+
+    # transverse first moments: the weights with which a piece of wire is
+    # distributed over the four parallel edges of its cell are (bi)linear,
+    # hence reproduce the transverse position of the piece:
+    #   sum f_c * node_a = integral r_a dr_c   (a != c)
+    # (for a closed loop: the vector area).  Decides *where* in the touched
+    # cells the moment sits; sum and support do not.
+    ctr = grid_centre(nodes)
+    Mrel = max(float(nd[-1] - nd[0]) for nd in nodes)/2
+    nseg = pts.shape[0] - 1
+    Mo, _ = first_moments(vfield, nodes, ctr)
+    Ro = path_moments(pts, ctr)
+    # electrodes and nodes rounded to 1e-9 m (each segment on its own),
+    # widths not rounded; ptol: uncertainty of the electrodes themselves.
+    mtol = (2e-9*(nseg*Mrel + L) + 64*EPS*M*(L + Mrel)
+            + 2*ptol*nseg*(Mrel + L))
+    off = ~np.eye(3, dtype=bool)
+    merr = np.where(off, np.abs(Mo - Ro), 0.0)
+    if np.any(merr > mtol):
+        c, a = np.unravel_index(int(np.argmax(merr)), (3, 3))
+        return ('moment_mismatch',
+                f"first moment sum({'xyz'[c]}-edges * {'xyz'[a]}-node) = "
+                f"{Mo[c, a]!r} vs path integral {Ro[c, a]!r} (about the grid "
+                f"centre; |diff| {merr[c, a]:.3e} > tol {mtol:.3e})"), 0
     return None, int(T.sum())
 
 
-def check_field(vres, sres, spec, grid, nodes, pts, nominal, kind):
+def check_field(vres, sres, spec, grid, nodes, pts, nominal, kind,
+                ptol=0.0):
     """Common oracles on the source vector `vres` (frequency=None,
     strength=1) and the source field `sres` (drawn call form, strength,
     frequency) of a wire with electrodes `pts` and nominal moment
@@ -546,7 +606,7 @@ def check_field(vres, sres, spec, grid, nodes, pts, nominal, kind):
            'hx': grid.h[0].tolist(), 'hy': grid.h[1].tolist(),
            'hz': grid.h[2].tolist(), 'origin': list(map(float, grid.origin))}
 
-    prob, ncell = vector_problem(vres, grid, nodes, pts, nominal)
+    prob, ncell = vector_problem(vres, grid, nodes, pts, nominal, ptol)
     if prob is None and (sres.normalizing or
                          not np.all(np.isfinite(sfield.field))):
         prob = ('nan_source' if not np.all(np.isfinite(sfield.field))
@@ -589,6 +649,8 @@ def check_field(vres, sres, spec, grid, nodes, pts, nominal, kind):
             f"{prob[1]}; failing segment {which}; electrodes="
             f"{pts.tolist()}", det)
 
+    check_meta(sfield, spec, kind)
+
     # --- strength and -s mu0 ---------------------------------------------
     s = sval_of(spec['freq'])
     fac = strength_of(spec)*(1.0 if s is None else -s*mu_0)
@@ -605,6 +667,49 @@ def check_field(vres, sres, spec, grid, nodes, pts, nominal, kind):
             f"{expect[i]!r}; strength={strength_of(spec)!r}, s={s!r}; "
             f"form={spec.get('form')}", det)
     return ncell
+
+
+def check_meta(sfield, spec, kind, dtype_none=True):
+    """Documented attributes of the returned Field against closed forms:
+    frequency (Hz, absolute value), Laplace parameter s = 2 pi i f (f > 0) or
+    |f| (f < 0), None for the source vector; complex for f > 0, real for
+    Laplace and (real strength) for frequency=None; an electric field."""
+    fr = spec['freq']
+    mode = fr['mode']
+    s = sval_of(fr)
+    got_f, got_s = sfield.frequency, sfield.sval
+    if mode == 'none':
+        ok = got_f is None and got_s is None
+    else:
+        ok = (got_f is not None and got_s is not None and
+              abs(float(got_f) - fr['f']) <= 1e-15*fr['f'] and
+              abs(complex(got_s) - s) <= 1e-14*abs(s) and
+              (np.iscomplexobj(got_s) == (mode == 'freq')))
+    if not ok:
+        raise Violation(
+            f"{kind}:field_frequency_attributes:{mode}",
+            f"requested frequency argument {freq_arg(fr)!r}: Field.frequency="
+            f"{got_f!r}, Field.sval={got_s!r}, expected {fr['f']!r} / {s!r}")
+    dt = np.asarray(sfield.field).dtype
+    if mode == 'freq':
+        want = np.complex128
+    elif mode == 'laplace' or (dtype_none and spec['strength'][1] == 0.0):
+        want = np.float64
+    else:
+        want = None
+    if want is not None and dt != want:
+        raise Violation(
+            f"{kind}:field_dtype:{mode}",
+            f"source field for frequency argument {freq_arg(fr)!r} and "
+            f"strength {strength_of(spec)!r} has dtype {dt}, documented "
+            f"{np.dtype(want)}")
+    if sfield.electric is not True:
+        raise Violation(f"{kind}:field_not_electric",
+                        f"Field.electric = {sfield.electric!r}")
+    n_edges = sum(int(np.prod(x.shape)) for x in
+                  (sfield.fx, sfield.fy, sfield.fz))
+    if np.asarray(sfield.field).size != n_edges:
+        raise Violation(f"{kind}:field_size", f"{sfield.field.size}")
 
 
 def grid_classes(spec, rec):
@@ -633,11 +738,13 @@ def case_wire(spec, rec):
     seglen = np.linalg.norm(np.diff(pts, axis=0), axis=1)
     L = float(seglen.sum())
     M = float(np.max(np.abs(pts)))
-    if form in ('point5', 'raw_point5') and 8*EPS*M > 1e-10:
+    if form in ('point5', 'raw_point5'):
         # In this format the electrodes are only defined up to the rounding
         # of centre +- length/2*direction (a few ulp of the coordinates).
-        # Where that exceeds what the documented 1e-9 m rounding absorbs, an
-        # electrode on the boundary could end up outside: use the pair form.
+        # An electrode on (or within 1e-6 m of) the boundary could end up
+        # outside - by more than the documented 1e-9 m rounding absorbs, or,
+        # for small coordinates, across a rounding tie - and emg3d then
+        # rejects it as documented: use the pair form.
         bd = min(min(p[a] - nodes[a][0], nodes[a][-1] - p[a])
                  for p in pts for a in range(3))
         if bd < 1e-6:
@@ -705,8 +812,10 @@ def case_wire(spec, rec):
 
     # ---- the three formats give the same points -------------------------
     if src is not None:
-        ptol = 0.0 if form != 'point5' else 1e-9*L + 16*EPS*M
-        dev = float(np.max(np.abs(np.asarray(src.points) - pts)))
+        # "same electrodes": to the documented 1e-9 m, not bit-wise
+        ptol = 1e-9 if form != 'point5' else 1e-9*L + 1e-9 + 16*EPS*M
+        dev = (float(np.max(np.abs(np.asarray(src.points) - pts)))
+               if src.points.shape == pts.shape else np.inf)
         if src.points.shape != pts.shape or dev > ptol:
             raise Violation(
                 f"format_points_mismatch:{form}",
@@ -731,7 +840,31 @@ def case_wire(spec, rec):
         vsrc = emg3d.TxElectricWire(pts.copy(), strength=1.0)
     vres = Caught(lambda: emg3d.get_source_field(grid, vsrc, None))
 
-    ncell = check_field(vres, sres, spec, grid, nodes, pts, nominal, 'wire')
+    ncell = check_field(
+        vres, sres, spec, grid, nodes, pts, nominal, 'wire',
+        ptol=(1e-9*L + 16*EPS*M) if form in ('point5', 'raw_point5') else 0.0)
+
+    # ---- orientation: the reversed wire gives the negated vector -----------
+    # (the distribution is a line integral along the path; edge-wise)
+    rpts = np.array(vsrc.points, dtype=float)[::-1].copy()
+    rres = Caught(lambda: emg3d.get_source_field(
+        grid, emg3d.TxElectricWire(rpts, strength=1.0), None))
+    va = np.asarray(vres.value.field)
+    vb = np.asarray(rres.value.field)
+    hmin = min(float(np.min(h)) for h in grid.h)
+    Mn = max(M, max(float(np.max(np.abs(nd))) for nd in nodes))
+    rtol = 1e-9*L + 64*EPS*Mn*L/hmin
+    if rres.normalizing or not np.all(np.abs(va + vb) <= rtol):
+        bad = np.abs(va + vb)
+        i = int(np.argmax(np.where(np.isnan(bad), np.inf, bad)))
+        raise Violation(
+            f"wire:reversal_not_antisymmetric:{feature}",
+            f"vector of the reversed wire is not the negative: entry {i}: "
+            f"{va[i]!r} vs {vb[i]!r} (tol {rtol:.3e}); warnings="
+            f"{sorted(set(rres.normalizing))[:2]}; electrodes={pts.tolist()}",
+            {'electrodes': pts.tolist(), 'hx': grid.h[0].tolist(),
+             'hy': grid.h[1].tolist(), 'hz': grid.h[2].tolist(),
+             'origin': list(map(float, grid.origin))})
 
     # ---- classification ---------------------------------------------------
     grid_classes(spec, rec)
@@ -817,6 +950,46 @@ def case_point(spec, rec):
             {'coordinates': list(coo), 'hx': grid.h[0].tolist(),
              'hy': grid.h[1].tolist(), 'hz': grid.h[2].tolist(),
              'origin': list(map(float, grid.origin))})
+    # ---- location: the (tri)linear weights reproduce the point ------------
+    # per component c (direction factor != 0): sum(f_c * edge position) /
+    # sum(f_c) = source position.  Transverse axes: always.  Along c the
+    # edges sit at cell centres; demanded between the first and the last
+    # cell centre only (nothing is promised for the outer half cells).
+    det = {'coordinates': list(coo), 'hx': grid.h[0].tolist(),
+           'hy': grid.h[1].tolist(), 'hz': grid.h[2].tolist(),
+           'origin': list(map(float, grid.origin))}
+    ctr = grid_centre(nodes)
+    Mn = max(float(np.max(np.abs(nd))) for nd in nodes)
+    Mo, Ao = first_moments(vfield, nodes, ctr)
+    along_ok = []
+    for c, arr in enumerate((vfield.fx, vfield.fy, vfield.fz)):
+        nnz = int(np.count_nonzero(np.asarray(arr)))
+        if nnz > 8:
+            raise Violation(
+                f"point:more_than_8_edges:{where}",
+                f"{'xyz'[c]}-component of a point source has {nnz} non-zero "
+                f"entries for {coo}", det)
+        cen = 0.5*(nodes[c][:-1] + nodes[c][1:])
+        inner = bool(cen[0] <= pos[c] <= cen[-1])
+        along_ok.append(inner)
+        if abs(u[c]) <= 1e-9:
+            continue
+        for a in range(3):
+            if a == c and not inner:
+                continue
+            loc = float(Mo[c, a]/sums[c])
+            ltol = 256*EPS*Mn + 64*EPS*float(Ao[c, a])/abs(sums[c])
+            if not abs(loc - (pos[a] - ctr[a])) <= ltol:
+                raise Violation(
+                    f"point:location_mismatch:{where}:"
+                    f"{'along' if a == c else 'transverse'}",
+                    f"{'xyz'[c]}-component of the point source at {coo} has "
+                    f"its centre of weight at {'xyz'[a]} = "
+                    f"{loc + ctr[a]!r}, source at {pos[a]!r} (|diff| "
+                    f"{abs(loc - (pos[a] - ctr[a])):.3e} > tol {ltol:.3e})",
+                    det)
+
+    check_meta(sfield, spec, 'point')
     s = sval_of(spec['freq'])
     fac = strength*(1.0 if s is None else -s*mu_0)
     expect = np.asarray(vfield.field)*fac
@@ -827,7 +1000,8 @@ def case_point(spec, rec):
             f"{'complex' if isinstance(fac, complex) else 'real'}",
             f"source field != vector*strength*(-s mu0); strength="
             f"{strength!r}, s={s!r}")
-    if np.any(np.asarray(src.points) != np.array([pos])):
+    if (np.asarray(src.points).shape != (1, 3) or
+            np.max(np.abs(np.asarray(src.points) - np.array([pos]))) > 1e-9):
         raise Violation("point:points_attribute", f"{src.points}")
 
     grid_classes(spec, rec)
@@ -837,7 +1011,9 @@ def case_point(spec, rec):
             'el=' + ('+90' if el == 90 else '-90' if el == -90 else
                      'neg' if el < 0 else 'zero' if el == 0 else 'pos'),
             'az=' + ('180' if az == 180 else 'neg' if az < 0 else
-                     'zero' if az == 0 else 'pos'))
+                     'zero' if az == 0 else 'pos'),
+            'along_axis_located=%d/3' % sum(
+                1 for c in range(3) if along_ok[c] and abs(u[c]) > 1e-9))
     if r[0] or np.count_nonzero(np.abs(u) > 1e-12) >= 2:
         rec.nt([spec['grid']['n'], spec['grid']['seed'], spec['pos'], az, el])
     rec.note({'shape': list(grid.shape_cells), 'coordinates': list(coo),
@@ -1119,9 +1295,65 @@ def case_magpoint(spec, rec):
                 "magpoint:net_moment",
                 f"{comp}-component sums to {arr.sum()!r} "
                 f"(sum of |.| {np.abs(arr).sum()!r}) for {coo}")
+    det = {'coordinates': list(coo), 'hx': grid.h[0].tolist(),
+           'hy': grid.h[1].tolist(), 'hz': grid.h[2].tolist(),
+           'origin': list(map(float, grid.origin))}
+    check_meta(fs, spec, 'magpoint', dtype_none=False)
+
+    # --- no frequency factor: the moment of a magnetic point source is
+    # I^m ds (class docstring), so the source field for f > 0, for the
+    # Laplace domain and the frequency-free source vector coincide.
+    fN = emg3d.get_source_field(grid, emg3d.TxMagneticPoint(coo), None)
+    aN = np.asarray(fN.field)
+    scN = float(np.max(np.abs(aN))) if np.all(np.isfinite(aN)) else np.nan
+    for nm, fq in (('f>0', spec['freq']['f']), ('laplace', -spec['freq']['f']),
+                   ('drawn', freq)):
+        fX = f1 if nm == 'drawn' else emg3d.get_source_field(
+            grid, emg3d.TxMagneticPoint(coo), fq)
+        aX = np.asarray(fX.field)
+        if aX.shape != aN.shape or not np.all(
+                np.abs(aX - aN) <= 1e-12*scN):
+            raise Violation(
+                f"magpoint:frequency_dependent:{nm}",
+                f"magnetic point source at {coo}: field for frequency "
+                f"argument {fq!r} differs from the frequency-free source "
+                f"vector (max |diff| {float(np.max(np.abs(aX - aN))):.3e}, "
+                f"max |vector| {scN:.3e}, ratio at the largest entry "
+                f"{aX[int(np.argmax(np.abs(aN)))]/aN[int(np.argmax(np.abs(aN)))]!r})",
+                det)
+
+    # --- direction and sign: magnetic moment of the source vector ----------
+    # m = 1/2 sum r x v.  For v = -curl^T (face weights of unit sum in
+    # direction u): sum v.E = -u.B for the linear field E = 1/2 B x r (curl
+    # E = B, reproduced exactly by edge midpoint values), i.e. m = -u: the
+    # same orientation as the loop of a TxMagneticDipole (vector area +u)
+    # has after its factor -s mu0.  Demanded between the first and the last
+    # cell centre on every axis.
+    u = unit_vector(spec['az'], spec['el'])
+    inner = all(0.5*(nodes[a][0] + nodes[a][1]) <= pos[a] <=
+                0.5*(nodes[a][-2] + nodes[a][-1]) for a in range(3))
+    if inner:
+        ctr = grid_centre(nodes)
+        Mn = max(float(np.max(np.abs(nd))) for nd in nodes)
+        hmin = min(float(np.min(h)) for h in grid.h)
+        Mo, Ao = first_moments(fN, nodes, ctr)
+        m = 0.5*np.array([Mo[2, 1] - Mo[1, 2], Mo[0, 2] - Mo[2, 0],
+                          Mo[1, 0] - Mo[0, 1]])
+        dtol = 64*EPS*float(Ao.sum()) + 1e3*EPS*(1 + Mn/hmin)
+        if not np.all(np.abs(m + u) <= dtol):
+            k = int(np.argmax(np.abs(m + u)))
+            raise Violation(
+                "magpoint:magnetic_moment_mismatch",
+                f"magnetic point source at {coo}: magnetic moment of the "
+                f"source vector 1/2 sum r x v = {m.tolist()}, expected "
+                f"-(direction) = {(-u).tolist()} (component {'xyz'[k]}: "
+                f"|diff| {abs(m[k] + u[k]):.3e} > tol {dtol:.3e})", det)
+
     grid_classes(spec, rec)
     r = residency(pos, nodes)
-    rec.cls('position=' + ['interior', 'face', 'edge', 'node'][r[0]])
+    rec.cls('position=' + ['interior', 'face', 'edge', 'node'][r[0]],
+            'moment_oracle=' + ('applied' if inner else
+                                'skipped_outer_half_cell'))
     rec.nt([spec['grid']['n'], spec['grid']['seed'], spec['pos'],
             spec['az'], spec['el']])
     rec.note({'coordinates': list(coo)})
